@@ -509,7 +509,10 @@ impl PairRun {
             "C06" => vec![PairOp::Intersection, PairOp::IntersectionMut],
             "C07" => vec![PairOp::Difference, PairOp::CoveringDifference, PairOp::DifferenceMut, PairOp::CoveringDifferenceMut],
             "C08" => vec![PairOp::Union, PairOp::Difference, PairOp::DifferenceMut],
-            "C13" | "C14" => vec![PairOp::UnionMut, PairOp::IntersectionMut, PairOp::DifferenceMut, PairOp::CoveringDifferenceMut],
+            "C13" => vec![PairOp::UnionMut, PairOp::IntersectionMut, PairOp::DifferenceMut, PairOp::CoveringDifferenceMut],
+            // C14: the read-only twins too (shared references into both operands are held across them:
+            // under Miri a read-only operation that creates a mutable reference internally is an error)
+            "C14" => vec![PairOp::UnionMut, PairOp::IntersectionMut, PairOp::DifferenceMut, PairOp::CoveringDifferenceMut, PairOp::UnionMut, PairOp::IntersectionMut, PairOp::DifferenceMut, PairOp::CoveringDifferenceMut, PairOp::Union, PairOp::Intersection, PairOp::Difference, PairOp::CoveringDifference],
             _ => vec![PairOp::Union, PairOp::Intersection, PairOp::Difference, PairOp::CoveringDifference, PairOp::UnionMut, PairOp::IntersectionMut, PairOp::DifferenceMut, PairOp::CoveringDifferenceMut],
         };
         for _ in 0..pairs {
